@@ -371,28 +371,28 @@ func (r *vpC03WriterToReader) WriteTo(w io.Writer) (int64, error) {
 	}
 }
 
-func vpC03MakeReader(s *vpC03StreamSpec, env *vpC03Env) (io.Reader, error) {
+func vpC03MakeReader(s *vpC03StreamSpec, env *vpC03Env) (io.Reader, string, error) {
 	base := vpC03Reader{data: s.Content, plan: s.Plan, zeroRead: s.ZeroRead, eofData: s.EOFData}
 	switch s.Reader {
 	case vpC03RdPlain:
-		return &base, nil
+		return &base, "", nil
 	case vpC03RdBytesReader:
-		return bytes.NewReader(s.Content), nil
+		return bytes.NewReader(s.Content), "", nil
 	case vpC03RdBytesBuffer:
-		return bytes.NewBuffer(append([]byte(nil), s.Content...)), nil
+		return bytes.NewBuffer(append([]byte(nil), s.Content...)), "", nil
 	case vpC03RdCloser:
-		return &vpC03ReadCloser{vpC03Reader: base}, nil
+		return &vpC03ReadCloser{vpC03Reader: base}, "", nil
 	case vpC03RdLimited:
 		base.data = s.Under
-		return &io.LimitedReader{R: &base, N: int64(s.LimitN)}, nil
+		return &io.LimitedReader{R: &base, N: int64(s.LimitN)}, "", nil
 	case vpC03RdWriterToOn:
-		return &vpC03WriterToReader{vpC03Reader: base, supports: true}, nil
+		return &vpC03WriterToReader{vpC03Reader: base, supports: true}, "", nil
 	case vpC03RdWriterToOff:
-		return &vpC03WriterToReader{vpC03Reader: base, supports: false}, nil
+		return &vpC03WriterToReader{vpC03Reader: base, supports: false}, "", nil
 	case vpC03RdFile, vpC03RdSendFile:
 		f, err := os.CreateTemp("", "vpc03-*.bin")
 		if err != nil {
-			return nil, err
+			return nil, "", err
 		}
 		name := f.Name()
 		env.mu.Lock()
@@ -400,17 +400,17 @@ func vpC03MakeReader(s *vpC03StreamSpec, env *vpC03Env) (io.Reader, error) {
 		env.mu.Unlock()
 		if _, err := f.Write(s.Content); err != nil {
 			f.Close()
-			return nil, err
+			return nil, "", err
 		}
 		if s.Reader == vpC03RdSendFile {
 			f.Close()
-			return nil, nil // caller uses Response.SendFile(name)
+			return nil, name, nil // caller uses Response.SendFile(name)
 		}
 		if _, err := f.Seek(0, io.SeekStart); err != nil {
 			f.Close()
-			return nil, err
+			return nil, "", err
 		}
-		return f, nil
+		return f, name, nil
 	}
 	panic("vpC03: unknown reader kind")
 }
@@ -464,15 +464,12 @@ func vpC03Exec(ctx *RequestCtx, ops []vpC03Op, env *vpC03Env) {
 		case "resetbody":
 			ctx.ResetBody()
 		case "stream":
-			r, err := vpC03MakeReader(o.Stream, env)
+			r, name, err := vpC03MakeReader(o.Stream, env)
 			if err != nil {
 				env.note("harness: cannot build reader: %v", err)
 				continue
 			}
 			if o.Stream.Reader == vpC03RdSendFile {
-				env.mu.Lock()
-				name := env.files[len(env.files)-1]
-				env.mu.Unlock()
 				if err := ctx.Response.SendFile(name); err != nil {
 					env.note("harness: SendFile: %v", err)
 				}
